@@ -214,9 +214,10 @@ for _fn, _tbl in (('find_channel', 'channels'), ('find_le_coc_channel', 'le_coc_
 # ---------------------------------------------------------------------------
 # on_channel_closed: the channel leaves BOTH tables, nothing else changes
 # ---------------------------------------------------------------------------
-def closed_effect(self, channel, old, ghost):
+def closed_effect(self, self0, channel, ghost, ghost0):
+    """effect of on_channel_closed on the manager `self` (entry state: self0 / ghost0)"""
     h = channel.connection.handle
-    ch0, le0 = old.self.channels, old.self.le_coc_channels
+    ch0, le0 = self0.channels, self0.le_coc_channels
     d_ch, d_le = inner(ch0, h), inner(le0, h)
     return [
         entry(self.channels, h, channel.source_cid) is None,
@@ -226,8 +227,8 @@ def closed_effect(self, channel, old, ghost):
         # the two inner dicts of this connection only the slots of this channel changed
         dict_same(self.channels, ch0),
         dict_same(self.le_coc_channels, le0),
-        pool_same_except(ghost.odicts, old.ghost.odicts, []),
-        pool_same_except(ghost.cdicts, old.ghost.cdicts, [d_ch, d_le]),
+        pool_same_except(ghost.odicts, ghost0.odicts, []),
+        pool_same_except(ghost.cdicts, ghost0.cdicts, [d_ch, d_le]),
         implies(d_ch is not None, dict_same_except(inner(self.channels, h), d_ch, [channel.source_cid])),
         implies(d_le is not None, dict_same_except(inner(self.le_coc_channels, h), d_le, [channel.destination_cid])),
         implies(d_le is not None and not same(entry(le0, h, channel.destination_cid), channel), dict_same(inner(self.le_coc_channels, h), d_le)),
@@ -245,7 +246,7 @@ contract(
     params=dict(self=MGR, channel=CHAN),
     ghost=HEAP,
     requires=lambda self, channel: wf(self, channel) + registered_or_absent(self, channel),
-    ensures=lambda self, channel, old, ghost: closed_effect(self, channel, old, ghost) + wf(self, None),
+    ensures=lambda self, channel, old, ghost: closed_effect(self, old.self, channel, ghost, old.ghost) + wf(self, None),
     ensures_names=EFFECT_NAMES + WF_NAMES,
     modifies=['ghost.cdicts'],
 )
@@ -257,7 +258,7 @@ contract(
     params=dict(self=MGR, channel=CHAN),
     ghost=HEAP,
     requires=lambda self, channel: distinct(self) + registered_or_absent(self, channel),
-    ensures=closed_effect,
+    ensures=lambda self, channel, old, ghost: closed_effect(self, old.self, channel, ghost, old.ghost),
     ensures_names=EFFECT_NAMES,
     modifies=['ghost.cdicts'],
 )
